@@ -42,7 +42,8 @@ impl Rec {
             o = o.volume_label(*b"VERIF LABEL");
         }
         if self.vid {
-            o = o.volume_id(0xFFFF_FFFF);
+            // (the request then also carries the other pass-through fields with non-default values)
+            o = o.volume_id(0xFFFF_FFFF).media(0xF0).drive_num(0x01).heads(16).sectors_per_track(32);
         }
         o
     }
@@ -252,6 +253,17 @@ fn judge_boot(rec: &Rec, total: u32, b: &[u8; 512]) -> Option<(String, String)> 
     let (o_id, o_label) = if g.width == 32 { (67usize, 71usize) } else { (39, 43) };
     if rec.vid && b[o_id..o_id + 4] != [0xFF; 4] {
         return Some(("C06/accepted/volume-id-differs".into(), format!("{rec:?} total {total}: {:02x?}", &b[o_id..o_id + 4])));
+    }
+    if rec.vid {
+        // media byte (also the low byte of FAT entry 0, compared with this field by the full-format check), geometry
+        // hints and drive number arrive as given
+        let o_drive = if g.width == 32 { 64usize } else { 36 };
+        if b[21] != 0xF0 || b[24..26] != 32u16.to_le_bytes() || b[26..28] != 16u16.to_le_bytes() || b[o_drive] != 0x01 {
+            return Some((
+                "C06/accepted/pass-through-field-differs".into(),
+                format!("{rec:?} total {total}: media {:#04x} sectors/track {:02x?} heads {:02x?} drive {:#04x}", b[21], &b[24..26], &b[26..28], b[o_drive]),
+            ));
+        }
     }
     let want_label: &[u8; 11] = if rec.label { b"VERIF LABEL" } else { b"NO NAME    " };
     if &b[o_label..o_label + 11] != want_label {
@@ -720,7 +732,7 @@ pub fn run(tier: &str) -> i32 {
         "full_range_sweeps": sweep,
         "technique": "bounded-exhaustive enumeration of the format-option grid on the real crate, judged by the independent geometry parser / decoder",
     });
-    rep.assumptions = vec!["option values off the declared grid are not covered (media/heads/sectors-per-track are pass-through fields)".into()];
+    rep.assumptions = vec!["option values off the declared grid are not covered (media / heads / sectors-per-track / drive number: default values, and one non-default set together with the volume id)".into()];
     rep.wall_s = t0.elapsed().as_secs_f64();
     rep.finish()
 }
